@@ -2,6 +2,22 @@
 the evidence texts (rule, assumptions)."""
 
 PLAN = {
+    "C02": {
+        "quick": [
+            {"kind": "rapid", "test": "TestC02Pair", "checks": 100000},
+        ],
+        "thorough": [
+            {"kind": "rapid", "test": "TestC02Pair", "checks": 400000, "shards": 16},
+        ],
+    },
+    "C04": {
+        "quick": [
+            {"kind": "rapid", "test": "TestC04Diff", "checks": 150000},
+        ],
+        "thorough": [
+            {"kind": "rapid", "test": "TestC04Diff", "checks": 500000, "shards": 16},
+        ],
+    },
     "C01": {
         "quick": [
             {"kind": "rapid", "test": "TestC01Fmt", "checks": 40000},
@@ -71,6 +87,8 @@ PLAN = {
 }
 
 RULES = {
+    "C02": "rapid: a shape (route x format x operand tree x registered types x optional error hook) with two instantiations A, B of its unsafe leaves, B derived from A by construction: every non-LF rune of an unsafe string is replaced by a freshly drawn one (markers, multi-byte runes included), run lengths may change when the consuming directive has no width/precision; byte slices and StringBuilder payloads keep their encoded length; bools, floats, complex always redrawn; integers redrawn in structured formats (zero-ness kept: it is 'emptiness' under a zero precision; shared under %c, which can print a line feed) and shared in chaotic formats (any may feed a '*'); map keys keep their relative order; public parts (literals, safe types, Safe()-wrapped, registered, star operands) are shared and free of pointers. Oracle: Redact(A) == Redact(B) byte for byte, both panic or neither, and a private-use rune tagged onto A's unsafe leaves never survives redaction. Non-trivial = the two unredacted outputs differ and the case is not bare top-level %v of basic values. Distinct = distinct specs (64-bit fingerprint). The class histogram counts (operand kind x verb) pairs.",
+    "C04": "rapid: route (Sprint, Sprintf, Fprint, Fprintf) x format (70% structured, 30% chaotic; every verb incl. invalid and non-ASCII ones, flags, width, precision, '*' with negative/zero/too large/non-int operands, argument indexes in chaotic formats, missing and extra operands) x operands from the fmt-compatible universe (basic and named kinds, containers, pointers, nil and typed nil, reflect.Value, Stringer/error/Formatter/GoStringer implementations incl. panicking, nil-receiver and scripted ones, SafeValue-marked and registered types), valid UTF-8 text with markers; excluded as the property says: %w, '0' with '-'. Oracle: strip(redact output) == fmt output with markers replaced by '?'; panics iff fmt panics. Non-trivial = anything beyond bare %v of a basic value (flag, width, precision, other verb, container, method, or an fmt diagnostic in the output). Distinct = distinct specs (64-bit fingerprint).",
     "C01": "rapid: (a) print cases = route (Sprint, Sprintf, Fprint, Fprintf, HelperForErrorf, StringBuilder.Print/Printf incl. RedactableBytes, Sprintfn Print/Printf) x format (65% structured directives with flags/width/precision/star/odd and non-ASCII verbs, 35% chaotic byte soup) x operands from the full value universe (plain kinds, containers, pointers, Stringer/error/Formatter/GoStringer/SafeFormatter/SafeMessager programs incl. panicking ones and formatters that discover the SafePrinter, Safe/Unsafe wrappers, library-produced RedactableString/Bytes, StringBuilders) x configuration (registered safe types, scripted error hook), payloads over the text or the byte alphabet (markers, single marker bytes, other lead bytes, FF); (b) writer-op histories of up to 12 ops in 12 contexts (StringBuilder, RedactableBytes, ManualBuffer with SetMode/raw fragments, Sprintfn, SafeFormat under a random directive / under Unsafe / under Safe / in a slice / in a struct, printing a StringBuilder, EscapeBytes); (c) Join/JoinTo over library-produced redactables. Oracle: well-formedness predicate on every output + escape invariance (replacing every marker in string payloads and literals by '?' must not change the output; only for %v/%s/%q directives and address-free outputs). Non-trivial = some payload, literal, panic message, map key or verb contains a marker or partial-marker byte (and the call did not end in a propagating panic). Distinct = distinct specs by 64-bit fingerprint.",
     "C03": "rapid: the same three generators as C01 (print cases over all routes / value universe / configurations; writer histories in 12 contexts; Join/JoinTo), judged by line-safety (well-formed and no line feed inside an envelope), well-formedness of every line of strings.Split(out, LF), and equality of line-wise and whole-string Redact / StripMarkers (string and bytes variants). The alphabets contain LF and LF LF tokens so that about 40% of unsafe payloads carry line feeds at their start, end or next to markers. Non-trivial = an unsafe-side payload contains a line feed and the output contains one. Distinct = distinct specs by 64-bit fingerprint.",
     "C09": "enumeration: breadth-first over all sequences of up to 3 (quick) / 5 (thorough) ops drawn from 50 op instances (17 SafeWriter/io.Writer methods x payloads from {a, space, LF, start marker, e-acute, 'a LF start-marker', empty}), with exact de-duplication of the buffer's hidden state through the verif hook; every transition is judged against the segment model, every retained path is also run on ManualBuffer, Sprintfn and a SafeFormat method. rapid: histories of up to 40 ops over the text or byte alphabet, with SetMode/raw-fragment writes for the buffer routes and Print/Printf ops. Non-trivial = the history has ops of at least two classes (safe/unsafe/pre-redactable) or a payload containing a marker byte or a line feed. Distinct = distinct reached buffer states (enumeration) / distinct histories (rapid), by 64-bit fingerprint.",
@@ -94,6 +112,18 @@ HOOK_COMMITS = ["cf350cc"]
 NOT_APPLICABLE = {}
 
 CLAIMS = {
+    "C02": {
+        "text": "Two-run (hyper-property) check: for generated shapes, two instantiations of the unsafe leaves must give byte-identical redacted outputs. This is the direct executable form of non-interference and is sensitive to every (kind, verb) classification site of the forked fmt (a missing unsafe switch shows as soon as the two instantiations differ in that leaf). Exploration; 100k pairs per quick run, 6.4M per thorough run.",
+        "design_ref": "DESIGN.md §4.2",
+        "note": "Trusted: the derivation of instantiation B keeps exactly what the property calls shape (types, emptiness incl. integer zero-ness, line-break positions, element counts of byte slices, relative order of map keys). Values declared safe are shared and kept free of pointers (addresses of distinct objects differ).",
+        "technique": "rapid property-based testing of a two-run relation (non-interference) with constructive generation of paired inputs",
+    },
+    "C04": {
+        "text": "Differential testing against the toolchain's own fmt on generated formats and fmt-compatible operand trees (including user methods that panic or use their fmt.State): stripped redact output must equal fmt's output with markers escaped, and panics must coincide. Exploration; 150k cases per quick run, 8M per thorough run.",
+        "design_ref": "DESIGN.md §4.4",
+        "note": "Oracle = fmt of go1.23.5. Known drift between that fmt and the forked (older) one is excluded: %w, '0' with '-', and width/precision after a caught method panic inside the same operand (newer fmt zeroes the numbers in clearflags).",
+        "technique": "rapid property-based differential testing against the standard library fmt",
+    },
     "C01": {
         "text": "Generated search over formats x operand trees x user programs x configurations and over writer histories in every context, with a validity predicate (markers strictly alternate) on every produced string plus a metamorphic relation (a marker inside data must behave exactly like a '?') that exposes forged-but-balanced envelopes. Exploration: 90k cases per quick run, 11M per thorough run; found F9 (ill-formed output after a panic propagating through a nested printer), now repaired.",
         "design_ref": "DESIGN.md §4.1",
